@@ -448,7 +448,12 @@ func Discharge(obls []*Obligation, dir string, timeout int, thorough bool, jobs 
 				}
 			} else if thorough {
 				// all solvers are consulted; every definite answer must agree
-				for _, s := range []string{"z3-new", "z3-new/as2", "z3", "cvc5"} {
+				all := []string{"z3-new", "z3-new/as2", "z3", "cvc5"}
+				if o.Raw != "" {
+					// string track: see below for why the legacy-simplex configuration is left out
+					all = []string{"z3-new", "z3", "cvc5"}
+				}
+				for _, s := range all {
 					try(s)
 				}
 				for _, a := range r.Attempts {
